@@ -107,7 +107,7 @@ def extract_function(f):
     out = rules.apply_rules(text, ctx, f.get('rules'))
     if f.get('rename'):
         out = re.sub(r'\bfn\s+' + re.escape(f['name']) + r'\b', 'fn ' + f['rename'], out, count=1)
-    return dict(lines=out.split('\n'), src_line=line, sha=sha(text), applied=ctx.applied, fmt=ctx.fmt, lits=ctx.lits, fmt_nargs=getattr(ctx, 'fmt_nargs', {}))
+    return dict(lines=[l for l in out.split('\n') if l.strip() != ''], src_line=line, sha=sha(text), applied=ctx.applied, fmt=ctx.fmt, lits=ctx.lits, fmt_nargs=getattr(ctx, 'fmt_nargs', {}))
 
 
 def extract_type(t):
